@@ -115,6 +115,7 @@ package leader
 //@ lockinv kvElection.mu C18.claim_iff_state:        isLeader == (state == "LEADER")
 //@ lockinv kvElection.mu C02.claim_implies_running:  isLeader ==> (ctx != nil && !stopped)
 //@ lockinv kvElection.mu C18.stopped_implies_state:  stopped ==> state == "STOPPED"
+//@ lockinv kvElection.mu C09.cancel_set_with_ctx:    ctx != nil ==> cancel != nil
 
 // Hooks that apply in every function: whoever stores the claim refreshes the
 // gauge before releasing the mutex; whoever reports a transition reports the
@@ -129,6 +130,7 @@ package leader
 //@   on store kvElection.isLeader set $gaugeFresh = false
 //@   on store kvElection.isLeader as s when !s.value set $claimCleared = true
 //@   on call updateIsLeaderMetric set $gaugeFresh = true
+//@   on call kvElection.cancel assert C19+C09.election_ctx_cancelled_only_by_stop_paths: caller.mayCancelElection
 //@   on unlock kvElection.mu assert C18.gauge_follows_claim: $gaugeFresh
 //@   on call recordTransition as c assert C18.transition_chain: c.fromState == $stateAtLock && c.toState == $stateStored && held(c.e.mu) == 2
 
@@ -383,7 +385,10 @@ package leader
 //@ func (e *kvElection) Start(ctx)
 //@   tags C18 C09 C20
 //@   requires C09.nil_ctx: ctx != nil
+//@   ghost mayCancelElection Bool = true
 //@   on store kvElection.ctx set e.stopped = false
+//@   ensures C19+C09.refused_start_has_no_effect: result == ErrAlreadyStarted ==> calls(cancel) == 0 && spawns(Start$1) == 0
+//@   ensures C09.start_spawns_one_round: result == nil ==> spawns(Start$1) == 1
 
 //@ func (e *kvElection) attemptAcquireWithRetry(ctx)
 //@   tags C17 C06 C07
@@ -442,7 +447,7 @@ package leader
 //@   on store kvElection.revision set e.revSet = true
 //@   on call onPromote as c assert C05.promote_gets_published_token: c.arg1 == token
 //@   on call onPromote as c assert C19.derived_from_election_ctx: origin(c.arg0, "ctx:derived") && origin(ctxof(c.arg0), "field:kvElection.ctx")
-//@   on call cancel assert C19.not_cancelled_early: calls(onPromote) == 1
+//@   on call ctxcancel assert C19.not_cancelled_early: calls(onPromote) == 1
 //@   on call onPromote assert C08.promote_once_per_activation: calls(onPromote) == 1
 //@   ghost claimed Bool = false
 //@   ghost stateL Int = 0
@@ -465,6 +470,11 @@ package leader
 //@   on lock kvElection.mu set ctxSeen = e.ctx != nil
 //@   on load kvElection.watcherRunning as l set watcherSeen = l.value
 //@   on call cancel set termCancelled = true
+//@   on call ctxcancel set termCancelled = true
+//@   on call termCancel set termCancelled = true
+//@   ghost wrCleared Bool = false
+//@   on store kvElection.watcherRunning as s when inspawn() set wrCleared = !s.value
+//@   on ret becomeFollower$1 assert C06+C18.watcher_flag_cleared_on_exit: wrCleared
 //@   on unlock kvElection.mu assert C03.claim_cleared_at_unlock: !e.isLeader
 //@   ensures C19.cancelled_on_demotion: cleared ==> termCancelled
 //@   ghost stateL Int = 0
@@ -482,7 +492,11 @@ package leader
 //@   on lock kvElection.mu when firstLock set wasLeaderL = e.isLeader
 //@   on lock kvElection.mu when firstLock set ctxNilL = e.ctx == nil
 //@   on lock kvElection.mu set firstLock = false
+//@   ghost mayCancelElection Bool = true
+//@   ghost firstUnlock Bool = true
 //@   on call cancel set e.stopped = true
+//@   on unlock kvElection.mu when firstUnlock assert C19+C09.stop_cancels_before_release: ctxNilL || calls(cancel) == 1
+//@   on unlock kvElection.mu set firstUnlock = false
 //@   on load kvElection.onDemote as l when l.value == nil set demoteNilSeen = true
 //@   on call wg.Wait assert C09.stop_waits_time_boxed: inspawn()
 //@   on select as s assert C09.stop_waits_time_boxed: s.blocking ==> s.hasAfter
@@ -504,7 +518,12 @@ package leader
 //@   on lock kvElection.mu when firstLock set wasLeaderL = e.isLeader
 //@   on lock kvElection.mu when firstLock set ctxNilL = e.ctx == nil
 //@   on lock kvElection.mu set firstLock = false
+//@   ghost mayCancelElection Bool = true
+//@   ghost firstUnlock Bool = true
 //@   on call cancel set e.stopped = true
+//@   on unlock kvElection.mu when firstUnlock assert C19+C09.stop_cancels_before_release: ctxNilL || calls(cancel) == 1
+//@   on unlock kvElection.mu set firstUnlock = false
+//@   on call KeyValue.Delete assert C19+C09.delete_after_cancel: calls(cancel) == 1
 //@   on load kvElection.onDemote as l when l.value == nil set demoteNilSeen = true
 //@   on call KeyValue.Delete set mayDelete = opts.DeleteKey && wasLeaderL
 //@   on call wg.Wait assert C09.stop_waits_time_boxed: inspawn()
@@ -944,6 +963,14 @@ package leader
 //@ func (a *natsWatcherAdapter) Updates()
 //@   tags C14 C20
 //@   flag spawn_exempt
+//@   ghost got Int = 0
+//@   ghost pending Bool = false
+//@   on recv chan as r set got = r.value
+//@   on recv chan as r set pending = r.ok
+//@   on send as s assert C14.forward_blocks: s.blocking
+//@   on send as s assert C14.forward_faithful: pending && ((got == nil) == (s.value == nil)) && (got != nil ==> istype(s.value, *natsEntryAdapter) && s.value.(*natsEntryAdapter).entry == got)
+//@   on send set pending = false
+//@   on backedge 0 assert C14.every_entry_forwarded: !pending
 //@   on makechan assert C14.updates_stable: inonce()
 //@   on spawn Updates$1 assert C14.updates_stable: inonce()
 //@   on spawn Updates$1$1 assert C14.updates_stable: inonce()
